@@ -932,14 +932,6 @@ def m_f18(v):
     return v['key'] == 'split_raman_lost' and d.get('was_raman') is True and d.get('n_parts', 0) > 1
 
 
-def m_f25(v):
-    """set_fiber_input_power reads `previous_node` (only bound while walking back over Fused elements) for a fibre that
-    directly follows a ROADM: reachable when nothing is inserted (no_insert_edfas) and the operator placed no booster"""
-    d = v.get('detail', {})
-    return v['key'] == 'design_raises' and d.get('exc_type') == 'UnboundLocalError' and d.get('no_insert') is True \
-        and d.get('fibre_directly_after_roadm') is True and 'previous_node' in d.get('exc', '')
-
-
 # exception types the chain model can produce (anything else, e.g. ROADM equalisation errors, is outside the model)
 MODEL_EXCEPTIONS = ('ZeroDivisionError', 'NetworkTopologyError')
 
@@ -948,7 +940,6 @@ MATCHERS = {
     'F16-min-length-above-max-length': m_f16,
     'F17-padding-skipped-at-fused': m_f17,
     'F18-raman-split-to-fiber': m_f18,
-    'F25-fibre-after-roadm-input-power': m_f25,
 }
 
 
@@ -994,7 +985,8 @@ def classify_exception(case, rec):
         if e['lumped'] and e['len'] >= mxl and tg > 0 and e['len'] // tg >= 1:
             lb = True
     d['lumped_beyond_subspan'] = lb
-    # entry point with no_insert_edfas on a topology where a fibre directly follows a ROADM (no operator booster)
+    # entry point with no_insert_edfas; a fibre directly following a ROADM (no operator booster) used to break
+    # set_fiber_input_power (finding F25, repaired in /repo by 9f8f6e2f: regression corpus f25_no_insert_fibre_after_roadm)
     d['no_insert'] = no_insert(case)
     d['fibre_directly_after_roadm'] = any(ln['src_kind'] == 'R' and ln['els'] and ln['els'][0]['k'] in 'FR' for ln in rec['before'])
     return d
